@@ -43,10 +43,10 @@ def setup(ctx):
         "SSLv3 cannot be offered by this interpreter's ssl module (HAS_SSLv3 is false): recorded as unreachable, not as held",
         "controls use the same client/peer object against a context without a minimum version",
     ]
-    ctx.require("monitor", "old_version_attempts_server", 30)
+    ctx.require("monitor", "old_version_attempts_server", 16)
     ctx.require("monitor", "controls_ok", 6)
     ctx.require("monitor", "new_version_ok", 8)
-    ctx.require("monitor", "old_version_attempts_client", 4)
+    ctx.require("monitor", "old_version_attempts_client", 3)
     ctx.require("monitor", "plaintext_probes", 16)
 
 
